@@ -330,7 +330,8 @@ _EQ_ORDER = {'ac_equations': 'set', 'equations': 'set', 'states_unsorted': 'set'
              'graph_nodes': 'set', 'eq_leaves': 'skip', 'eq_leaves_num': 'skip'}
 _VAR_ORDER = dict(_EQ_ORDER, ac_variables='set', ac_derived='set', terms='set', variables='set', vars_full='set', states='set', state_inits='set', derivs='set',
                   derived='set', eqsfor='set', eqsfor_direct='set')
-_SAME = {'graph_nodes': 'set'}      # the order of graph.nodes is not even stable between processes (known finding)
+_SAME = {}      # nothing may change - graph.nodes included: its order follows Model.equations alone (Model.graph sorts the
+#                 references of an equation by str before it walks them; fixed finding hashseed:graph_nodes)
 PERM_RULES = {'units': _SAME, 'groups': _SAME, 'ends': _SAME, 'toplevel': _SAME,
               'connections': {'ac_equations': 'set', 'equations': 'set', 'derived_unsorted': 'set', 'graph_nodes': 'set', 'eq_leaves': 'skip',
                               'eq_leaves_num': 'skip'},
@@ -664,8 +665,10 @@ def compare_dump(label, dump, rep):
     mleaves = [sorted(set(_names(ls))) for _, ls in parts['leaves']]
     if mleaves != dump['eq_leaves'] or dump['eq_leaves_num'] != dump['eq_leaves']:
         return None         # SymPy cancelled a reference (x - x, 0*x after substitution): the graph queries are not compared
-    if sorted(_names(parts['nodes'])) != sorted(dump['graph_nodes']):
-        return '%s: graph nodes differ: model %s, implementation %s' % (label, sorted(_names(parts['nodes'])), sorted(dump['graph_nodes']))
+    # the node LIST (networkx insertion order): left-hand sides in equation order, then late state / free nodes in the
+    # str order of the references of the equation that brings them in - whatever adversary the model was given
+    if _names(parts['nodes']) != dump['graph_nodes']:
+        return '%s: graph nodes (in order) differ: model %s, implementation %s' % (label, _names(parts['nodes']), dump['graph_nodes'])
     for mine, theirs in (('eqsfor', 'eqsfor'), ('eqsfordirect', 'eqsfor_direct')):
         m = [[str(n), _names(l)] for n, l in parts[mine]]
         if m != dump[theirs]:
@@ -701,8 +704,12 @@ MANIFEST = {
              'only grows: strictly increasing along variables() after any add/remove history), '
              'lexTopo_insertion_independent (C09). The unfixed code is kept as transformConstantsSet / loadSet with '
              'proved counterexamples (transform_constants_set_order_dependent, loadSet_order_dependent) and '
-             'loadSet_perm (same equation set). Two order dependences still in the code are reproduced and proved: '
-             'graph_nodes_order_dependent, derived_depends_on_equation_order. Element permutations: '
+             'loadSet_perm (same equation set). graph_order_independent / graph_nodes_order_independent: Model.graph '
+             'itself - node list in networkx insertion order, edge list - is the same for every iteration order of '
+             'the reference sets (the property sorts them by str; str keys distinct), so the node order is a function '
+             'of Model.equations alone; the code before that fix is kept as graphSet with the proved counterexample '
+             'graph_nodes_set_order_dependent. One order dependence still in the code is reproduced and proved: '
+             'derived_depends_on_equation_order. Element permutations: '
              'variables_follow_document and equations_follow_document state exactly which orders follow the document; '
              'element_perm_connections (same roots, variables, maths and constants lists; only the block of conversion '
              'equations is in work-list order), element_perm_ends (identical flat model), element_perm_equations '
